@@ -16,7 +16,8 @@ CONSTANTS MaxKeyLevels, MaxItems, MaxTotal, ItemMax, MaxEvals, MaxDepth,
           LimitNs,      \* top-level Limit(n) for n in LimitNs; 99 = no Limit
           ItemKind,     \* "int" | "str" | "tup": what the items are (one orderable kind per universe)
           NestedLimitNs,\* Limit(n) directly above the leaf, under >= 1 key level; 99 = none
-          SampleNs      \* Sample(n) leaves for n in SampleNs
+          SampleNs,     \* Sample(n) leaves for n in SampleNs
+          WithFaults    \* TRUE: the (lazy) target may raise instead of yielding its next item
 
 NoLimit == 99
 
@@ -46,6 +47,12 @@ OrdSafe(sp) ==
   /\ LET L == sp[Len(sp)] IN
      \/ L.op \in {"list", "last"} /\ L.val = "ident"
      \/ L.op = "agg" /\ L.agg \in {"First", "Max", "Min", "Count", "Sample"}
+\* objects with a hostile __eq__ are only routed (by t % 2, t // 2, a constant), collected and counted
+HostileSafe(sp) ==
+  /\ \A l \in 1..Len(sp) : sp[l].op = "dict" => sp[l].key \in {"mod2", "half", "const"}
+  /\ LET L == sp[Len(sp)] IN
+     \/ L.op \in {"list", "last"} /\ L.val = "ident"
+     \/ L.op = "agg" /\ L.agg \in {"First", "Count", "Sample"}
 NumSafe(sp) == \A l \in 1..Len(sp) : sp[l].op = "dict" => sp[l].key \notin {"len", "first"}
 \* a nested Limit sits under a key level, above a leaf that never answers SKIP, not above Sample
 NestedOk(nk, nlim, leaf) ==
@@ -60,6 +67,7 @@ IdSafe(sp) ==
 ItemsFor(sp) ==
   (CASE ItemKind = "int" -> {VInt(i) : i \in (0 - NegItems)..ItemMax}
      [] ItemKind = "str" -> {VStr(w) : w \in Words}
+     [] ItemKind = "hostile" -> {[k |-> kk, i |-> i] : kk \in {"any", "strict"}, i \in 0..1}
      [] ItemKind = "tup" -> {VTup(<<VInt(1), VStr("b")>>), VTup(<<VInt(1), VStr("a")>>),
                              VTup(<<VInt(0), VStr("ba")>>), VTup(<<VInt(2), VStr("a")>>)})
   \cup (IF WithIds /\ IdSafe(sp) THEN {IdVal(l) : l \in {m \in 1..Len(sp) : sp[m].op \in {"dict", "list"}}} ELSE {})
@@ -70,7 +78,7 @@ Init ==
        /\ NestedOk(nk, nlim, leaf)
        /\ spec = MkSpec(lim, kfs, nlim, leaf)
        /\ (WithIds => IdSafe(spec))
-       /\ (IF ItemKind = "int" THEN NumSafe(spec) ELSE OrdSafe(spec))
+       /\ (CASE ItemKind = "int" -> NumSafe(spec) [] ItemKind = "hostile" -> HostileSafe(spec) [] OTHER -> OrdSafe(spec))
   /\ heap = <<>> /\ evals = <<>> /\ stack = <<>> /\ hist = <<>>
 
 RECURSIVE TotalFed(_)
@@ -78,13 +86,18 @@ TotalFed(i) == IF i = 0 THEN 0 ELSE Len(evals[i].items) + TotalFed(i - 1)
 
 StartEval ==
   /\ Len(evals) < MaxEvals /\ Len(stack) < MaxDepth
+  /\ (stack # <<>> => ~evals[stack[Len(stack)]].faulted)
   /\ NewEvaluation /\ UNCHANGED spec
 FeedItem ==
   /\ stack # <<>> /\ Len(evals[stack[Len(stack)]].items) < MaxItems /\ TotalFed(Len(evals)) < MaxTotal
+  /\ ~evals[stack[Len(stack)]].faulted
   /\ \E x \in ItemsFor(spec) : Feed(x)
   /\ UNCHANGED spec
 EndEval ==
   /\ MaxEvals > 1
   /\ Finish /\ UNCHANGED spec
-Next == StartEval \/ FeedItem \/ EndEval
+SourceFault ==
+  /\ WithFaults
+  /\ Fault /\ UNCHANGED spec
+Next == StartEval \/ FeedItem \/ SourceFault \/ EndEval
 ====================================================================================
